@@ -68,6 +68,8 @@ type Plan struct {
 	// CoincideReorg: the head event that carries a reorg affecting the current epoch's attester duties arrives
 	// exactly when that slot's attestation job is due (slot start + attestation delay).
 	CoincideReorg bool `json:"coincide_reorg,omitempty"`
+	// OddSpec: a zero or absurd value in the chain specification the node serves (C16 only).
+	OddSpec string `json:"odd_spec,omitempty"`
 	// AttestTakes: how long the recording attester (focused variant) stays inside Attest (default 300ms).
 	AttestTakes time.Duration `json:"attest_takes,omitempty"`
 	// ProposeTakes: how long the recording proposer (focused variant) stays inside Propose (default 500ms).
@@ -134,6 +136,14 @@ func NewModel(p *Plan) *Model {
 		c.SyncCommitteeSize = p.SyncCommitteeSize
 	}
 	c.SyncCommitteeSubnetCount = 4
+	switch p.OddSpec {
+	case "zero-target-aggregators":
+		c.TargetAggregatorsPerCommittee = 0
+	case "zero-sync-target-aggregators":
+		c.TargetAggregatorsPerSyncSubcommittee = 0
+	case "huge-target-aggregators":
+		c.TargetAggregatorsPerCommittee = 1 << 63
+	}
 	c.AltairForkEpoch = phase0.Epoch(p.AltairEpoch)
 	c.BellatrixForkEpoch = phase0.Epoch(p.AltairEpoch)
 	c.CapellaForkEpoch = phase0.Epoch(p.AltairEpoch)
